@@ -4,15 +4,21 @@ import vlib
 
 TARGETS = ["Base/Corr.vo", "C15/Model.vo", "C15/ModelBuf.vo", "C15/Corr.vo", "C15/Spec.vo", "C15/SpecTest.vo",
            "C15/ProofsSum.vo", "C15/ProofsFwd.vo", "C15/ProofsBwd.vo", "C15/ProofsBuf.vo", "C15/ProofsOpt.vo", "C15/ProofsVit.vo",
-           "C15/ProofsVitInst.vo", "C15/ProofsMix.vo", "C15/ProofsLog.vo", "C15/ProofsTop.vo",
+           "C15/ProofsVitInst.vo", "C15/ProofsMix.vo", "C15/ProofsLog.vo", "C15/ProofsTop.vo", "C15/ProofsPost.vo", "C15/ProofsBW.vo", "C15/ProofsTop2.vo",
            "C15/Proofs.vo", "C15/Props.vo"]
 PROPS = ["C15/Props.v"]
-PARTIAL = ("Theorems are about the hand-written semiring-polymorphic model coq/C15/Model.v of the generic HMM/mixture "
-           "code (exact arithmetic in a commutative semiring; the log-space float code is connected through the ln/exp "
-           "isomorphism stated over R and, per sampled case, through the exact-rational comparison of exp(value) with "
-           "relative tolerance 2^-36; binary64 rounding itself is not proved). Constrained / hierarchical HMM wrappers, "
-           "matrixDistribution.Hmm and the vectorClassifier front-ends have no theorem and are not exercised; "
-           "Baum-Welch belongs to C16.")
+PARTIAL = ("Theorems are about the hand-written semiring-polymorphic models coq/C15/Model.v (pure functions) and "
+           "coq/C15/ModelBuf.v (forward/backward/float64 copies, Posterior and one Baum-Welch step of a thread as state "
+           "transformers on work buffers with arbitrary prior content); exact arithmetic in a commutative semiring; the "
+           "log-space float code is connected through the ln/exp isomorphism stated over R and, per sampled case, through "
+           "the exact-rational comparison of exp(value) with relative tolerance 2^-36; binary64 rounding itself is not "
+           "proved. Posterior theorem: duplicate-free state sets below m (lists with duplicates are compared per case "
+           "only). Baum-Welch: the expected counts (pi, tr, gamma, likelihood) of ONE thread are proved equal to the "
+           "enumerated posterior expectations; the temporaries xi/gamma0/gammaTmp are not modelled as state (they are "
+           "poisoned in the correspondence run), merging several threads is C17, the emission M-step C16, the "
+           "re-normalisation (hmm1.normalize) is executed in the model and compared but has no theorem. Constrained / "
+           "hierarchical HMM wrappers, matrixDistribution.Hmm and the vectorClassifier front-ends have no theorem and are "
+           "not exercised.")
 # genuine quirks of the unchanged library, matched narrowly (id, site, fixed witness evaluated by the harness)
 KNOWN_IDS = {
     "F-C15-TF-SELFLOOP": "statistics/generic/hmm_utility.go:126 (HmmTransitionMatrix.Normalize via Hmm.normalizeTf): a state without "
@@ -22,7 +28,8 @@ HOOK_SRC = os.path.join(vlib.ROOT, "harness", "c15", "hook", "verif_c15.go.txt")
 
 
 def install_hook():
-    """add-only hook (build tag verif) exposing float64ForwardBackward; installed into the library tree that is checked"""
+    """add-only hook (build tag verif): float64ForwardBackward on fresh and on caller-supplied matrices, generic forwardBackward on
+    caller-supplied matrices, poisoning / reading of the Baum-Welch per-thread memory; installed into the library tree that is checked"""
     dst = os.path.join(vlib.REPO, "statistics", "generic", "verif_c15.go")
     src = open(HOOK_SRC).read()
     if not os.path.exists(dst) or open(dst).read() != src:
